@@ -415,7 +415,9 @@ fn main() {
     let mut start_states: Vec<(&str, Vec<Op>, Vec<Op>, usize)> = Vec::new();
     {
         let f2_ops: Vec<Op> = if c04 {
-            vec![Op::Remove(1), Op::Add(2), Op::Update(1, 1), Op::Update(2, 6), Op::Update(1, 13), Op::Add(4), Op::Update(2, 12), Op::Flush, Op::Update(1, 0)]
+            // (Remove(2) then Update(1, 1): a unique value moves from the HIGHER id to the lower one;
+            //  Remove(1) then Update(2, 6): from the lower to the higher)
+            vec![Op::Remove(1), Op::Add(2), Op::Update(1, 1), Op::Update(2, 6), Op::Update(1, 13), Op::Add(4), Op::Update(2, 12), Op::Flush, Op::Update(1, 0), Op::Remove(2)]
         } else {
             vec![Op::Remove(1), Op::Add(2), Op::Update(1, 0), Op::Update(2, 8), Op::Flush, Op::Remove(2), Op::Add(3), Op::Update(1, 5), Op::SaveExt(1), Op::RemoveExt]
         };
